@@ -1247,6 +1247,21 @@ class Evaluator:
 
   # ------------------------------------------------------------------ calls
   def e_Call(self, node, env, ctx):
+    # d.pop('k') on a known dict bound to a local name: value + removal
+    nf = node.func
+    if (isinstance(nf, ast.Attribute) and nf.attr == 'pop' and isinstance(nf.value, ast.Name) and len(node.args) >= 1
+        and not node.keywords):
+      name = norm_ident(nf.value.id)
+      cur = env.get(name)
+      if cur is not None and cur.k == 'dict':
+        key = self.eval(node.args[0], env, ctx)
+        if key.k == 'const':
+          for kk, vv in cur.a:
+            if kk == key:
+              env[name] = Term('dict', *[(a, b) for a, b in cur.a if a != key])
+              return vv
+          if len(node.args) > 1 and all(kk.k == 'const' for kk, _ in cur.a):
+            return self.eval(node.args[1], env, ctx)
     f = self.eval(node.func, env, ctx)
     args = []
     for a in node.args:
